@@ -33,6 +33,8 @@ type Check struct {
 	MemLimit uint64
 	// Serial runs a single worker at a time (for measurements).
 	Serial bool
+	// Procs is GOMAXPROCS inside a worker (default 2: workers are single-goroutine, more Ps only add GC contention).
+	Procs int
 	// Post may derive additional failures or counters from the merged report (supervisor side).
 	Post func(tier string, m *Merged)
 }
